@@ -51,7 +51,8 @@ func queryBatteryOpt(b *roaring.Bitmap, m *model.Set32, withChecksum bool) (int,
 	n := 0
 	L := m.Slice()
 	card := uint64(len(L))
-	before := extract.Sig(roaring.VerifViewOf(b), true)
+	beforeView := roaring.VerifViewOf(b)
+	before := sigNoFlags(beforeView)
 	rank := func(x uint32) uint64 { return uint64(sort.Search(len(L), func(i int) bool { return L[i] > x })) }
 	if g := b.GetCardinality(); g != card {
 		return n, fail("GetCardinality", "value", "GetCardinality()=%d want %d", g, card)
@@ -156,7 +157,14 @@ func queryBatteryOpt(b *roaring.Bitmap, m *model.Set32, withChecksum bool) (int,
 	n += 3
 	// queries never modify
 	v := roaring.VerifViewOf(b)
-	if after := extract.Sig(v, true); after != before {
+	// (the Clone above legitimately SETS copy-on-write flags of a bitmap in copy-on-write mode; a flag that a
+	// query CLEARS would let a later write go through to a sibling, so flags may only be gained)
+	for i := range v.Chunks {
+		if i < len(beforeView.Chunks) && beforeView.Chunks[i].COW && !v.Chunks[i].COW {
+			return n, fail("queries", "cleared-cow-flag", "read-only queries cleared the copy-on-write flag of chunk %d", v.Chunks[i].Key)
+		}
+	}
+	if after := sigNoFlags(v); after != before {
 		return n, fail("queries", "modified-representation", "read-only queries changed the representation: %s -> %s", before, after)
 	}
 	if got := extract.Content(v); !got.Equal(m) {
@@ -249,4 +257,15 @@ func runC03(c *Ctx) {
 	}
 	runScenarios(c, states, eq, pop)
 	c.R.SetExtra("query_evaluations", atomic.LoadInt64(&evals))
+}
+
+// sigNoFlags is the representation signature (kinds, cached cardinalities, lengths, capacity classes) with the
+// per-chunk copy-on-write flags left out.
+func sigNoFlags(v roaring.VerifView) string {
+	w := v
+	w.Chunks = append([]roaring.VerifChunk(nil), v.Chunks...)
+	for i := range w.Chunks {
+		w.Chunks[i].COW = false
+	}
+	return extract.Sig(w, true)
 }
